@@ -47,7 +47,7 @@ METHOD_PRIMS = {
     "decode": {"UnicodeDecodeError"},
     "encode": {"UnicodeEncodeError"},
     "recv": {"OSError"}, "send": {"OSError"}, "sctp_send": {"OSError"},
-    "connect": {"OSError"}, "connectx": {"OSError"}, "accept": {"OSError"},
+    "connect": {"OSError"}, "connectx": {"OSError"}, "accept": {"OSError"}, "accept": {"OSError"},
     "bind": {"OSError"}, "bindx": {"OSError"}, "listen": {"OSError"},
     "getsockname": {"OSError"}, "getsockopt": {"OSError"}, "setsockopt": {"OSError"},
     "setblocking": {"OSError"},
@@ -89,7 +89,7 @@ NORAISE_PREFIXES = ("self.logger.", "logger.", "self.connection_logger.",
 
 FAULT_METHOD_PRIMS = {
     "recv": {"OSError"}, "send": {"OSError"}, "sctp_send": {"OSError"},
-    "connect": {"OSError"}, "connectx": {"OSError"},
+    "connect": {"OSError"}, "connectx": {"OSError"}, "accept": {"OSError"},
     "decode": {"UnicodeDecodeError"},
     "start": {"RuntimeError"},
 }
